@@ -9,6 +9,7 @@ import Pyiga.Proofs.Multipatch
 import Pyiga.Proofs.MultipatchMat
 import Pyiga.Proofs.MultipatchSlice
 import Mathlib.Logic.Equiv.Basic
+import Mathlib.Data.Fin.Embedding
 
 namespace Pyiga.Props.C14
 open Pyiga.MP Relation
@@ -93,6 +94,28 @@ theorem glue_numdofs_eq_classes (P : Nat) (N : Nat → Nat) (L : List (Dof × Do
   · rintro ⟨g, hg⟩
     obtain ⟨x, hx, hgx⟩ := h3 g hg
     exact ⟨Quotient.mk _ ⟨x, hx⟩, Fin.ext hgx⟩
+
+theorem eqvGen_congr {L L' : List (Dof × Dof)} (h : ∀ ab, ab ∈ L ↔ ab ∈ L') (x y : Dof) :
+    EqvGen (Declared L) x y ↔ EqvGen (Declared L') x y :=
+  ⟨eqvGen_mono (fun ab hab => (h ab).1 hab), eqvGen_mono (fun ab hab => (h ab).2 hab)⟩
+
+/-- **order independence**: two histories that declare the same identifications — in any order, with any
+repetitions — glue the same dofs together and produce the same number of global dofs. -/
+theorem glue_order_independent (P : Nat) (N : Nat → Nat) (L L' : List (Dof × Dof)) (hval : ValidPairs P N L)
+    (hsame : ∀ ab, ab ∈ L ↔ ab ∈ L') :
+    (∀ x y, ValidDof P N x → ValidDof P N y →
+      ((globOf Cfg.repaired P N L).globalIdx x.1 x.2 = (globOf Cfg.repaired P N L).globalIdx y.1 y.2 ↔
+       (globOf Cfg.repaired P N L').globalIdx x.1 x.2 = (globOf Cfg.repaired P N L').globalIdx y.1 y.2)) ∧
+    (globOf Cfg.repaired P N L).numdofs = (globOf Cfg.repaired P N L').numdofs := by
+  have hval' : ValidPairs P N L' := fun ab hab => hval ab ((hsame ab).2 hab)
+  obtain ⟨h1, _, _⟩ := glue_spec P N L hval
+  obtain ⟨h1', _, _⟩ := glue_spec P N L' hval'
+  refine ⟨fun x y hx hy => (h1 x y hx hy).trans ((eqvGen_congr hsame x y).trans (h1' x y hx hy).symm), ?_⟩
+  obtain ⟨e⟩ := glue_numdofs_eq_classes P N L hval
+  obtain ⟨e'⟩ := glue_numdofs_eq_classes P N L' hval'
+  have q : Quotient (dofSetoid P N L) ≃ Quotient (dofSetoid P N L') :=
+    Quotient.congr (Equiv.refl _) (fun a b => eqvGen_congr hsame a.1 b.1)
+  exact Fin.equiv_iff_eq.1 ⟨e.symm.trans (q.trans e')⟩
 
 /-- **glue_spec for histories of API calls** (`join_dofs` with its assertions, `join_boundaries`
 through `boundary_dofs` with flips; a call that raises changes nothing): the finalized object is
